@@ -1,5 +1,6 @@
 import AikenVerif.Drivers.Names
 import AikenVerif.Drivers.Cek
+import AikenVerif.Drivers.Shrink
 /-!
 Native driver: line protocol.  Each request line is
   `<sub-command> <case-id> <fields…>`
@@ -19,6 +20,7 @@ def dispatch (st : DriverState) (sub : String) (args : List String) : DriverStat
     ({ st with costModel := cm }, reply)
   | "cek" => (st, Drivers.Cek.handleCek st.costModel args)
   | "spec" => (st, Drivers.Cek.handleSpec args)
+  | "shrink" => (st, Drivers.Shrink.handle args)
   | _ => (st, "unknown-subcommand")
 
 partial def loop (h : IO.FS.Stream) (out : IO.FS.Stream) (st : DriverState) : IO Unit := do
